@@ -822,6 +822,15 @@ def fixed_families(rng):
     F.append(("line-boundary-chars", LB, [{"s": "a\u2028b", "b": b"x\x85y", "f": b"\x85\x0a\x1c", "m": {"k\u2029": "v\u0085", "\u0085": ""}, "u": "\u2028"},
                                           {"s": "\u0085", "b": b"\x85", "f": b"abc", "m": {}, "u": b"\x85\x85"},
                                           {"s": "\u2029\u2028\u0085\u001c\u000b\u000c", "b": b"", "f": b"\x0b\x0c\x1e", "m": {"\u2028": "\u2029"}, "u": None}]))
+    U8 = rec("U8", [("b", "bytes"), ("f", fixed("U8F", 2)), ("m", mp("bytes")), ("u", ["null", "bytes", fixed("U8G", 4)]), ("a", arr("bytes")),
+                    ("d", "bytes", {"default": "\u00c3\u00a9"}), ("g", fixed("U8H", 2), {"default": "\u00c2\u0080"})])
+    F.append(("utf8-looking-bytes", U8, [{"b": "caf\u00e9".encode(), "f": b"\xc3\xa9", "m": {"k": b"\xc2\x80\xc3\xbf", "j": b"\xc3"}, "u": b"\xc3\xa9",
+                                         "a": [b"\xc3\xa9", b"a\xc2\xa0b", b"\xc3\xa9\xff"], "d": b"\xc3\xbf", "g": b"\xc2\xa0"},
+                                        {"b": b"\xc3\xa9", "f": b"\xc2\x80", "m": {}, "u": b"\xc3\xa9\xc3\xa9", "a": [], "d": b"\xc3\xa9", "g": b"\xc3\xbf"},
+                                        {"b": b"\xc2\x80\xc3\xbf", "f": b"\xc3\xbf", "m": {"\u00e9": b"\xc3\xa9"}, "u": None, "a": [b"\xc3\xa9"]}]))
+    F.append(("utf8-looking-bytes", "bytes", ["\u00e9".encode(), b"\xc3\xa9\xc2\x80", "caf\u00e9".encode()]))
+    F.append(("utf8-looking-bytes", fixed("U8T", 2), [b"\xc3\xa9", b"\xc2\xbf"]))
+    F.append(("utf8-looking-bytes", mp(["null", "bytes"]), [{"a": b"\xc3\xa9", "b": None, "c": b"\xc3\x28"}]))
     F.append(("line-boundary-chars", "string", ["\u2028", "x\u0085y", "\u2029z"]))
     F.append(("line-boundary-chars", "bytes", [b"\x85", b"a\x85"]))
     F.append(("line-boundary-chars", mp("int"), [{"\u2028": 1, "a\u0085b": 2}]))
@@ -914,6 +923,17 @@ class SmallData(gen.DataGen):
         if n is None and self.rng.random() < 0.8:
             n = self.rng.choice([0, 1, 2, 3, 7])
         b = gen.DataGen.bytes_(self, n)
+        if self.rng.random() < 0.2:
+            # bytes that are VALID UTF-8 of Latin-1-range characters (C2/C3 + 80..BF pairs): a writer that decodes bytes as UTF-8
+            # "when it fits" writes one code point per pair; mixed with ASCII and with invalid sequences; for fixed: exact length n
+            pool = ["\u00e9", "\u00ff", "\u0080", "\u00a0", "\u00c3", "\u00c2", "caf\u00e9", "a", "\u00bf\u00c0"]
+            t = b"".join(self.rng.choice(pool).encode("utf-8") for _ in range(self.rng.choice([1, 1, 2, 3])))
+            if self.rng.random() < 0.3:
+                t = self.rng.choice([b"\xc3", b"\xff", b"\xa9", b"x"]) + t + self.rng.choice([b"", b"\xc2", b"\x80"])
+            if n is None:
+                return t
+            if n >= 2:
+                return (t * n)[:n] if self.rng.random() < 0.5 else (b"\xc3\xa9" * n)[:n]
         if len(b) > 0 and self.rng.random() < 0.15:      # 0x85 = U+0085 in the ISO-8859-1 string; 0x0a, 0x1c, 0x22, 0x5c
             i = self.rng.randrange(len(b))
             b = b[:i] + bytes([self.rng.choice([0x85, 0x85, 0x0a, 0x0d, 0x1c, 0x22, 0x5c, 0xa0])]) + b[i + 1:]
